@@ -1128,6 +1128,19 @@ impl Transaction {
             }
 
             //
+            // the signature only authorises spending the outputs of the signer
+            //
+            if self.transaction_type != TransactionType::Bound {
+                let signer: SaitoPublicKey = self.from[0].public_key;
+                if self.from.iter().any(|slip| {
+                    slip.amount > 0 && slip.slip_type != SlipType::Bound && slip.public_key != signer
+                }) {
+                    error!("ERROR 582041: transaction spends an input that is not owned by its signer");
+                    return false;
+                }
+            }
+
+            //
             // validate routing path sigs
             //
             // it strengthens censorship-resistance and anti-MEV properties in the network
